@@ -115,7 +115,7 @@ CLAIMED = {
         "DESIGN.md §7 C13",
     ),
     "C10": (
-        "Lean 4 round-trip theorems for text (five-pass unescape over the extracted escape table, block induction), strings (single pass, both quotes), integers, booleans, and end-to-end (lexer+parser) round trips for raw text and for a string argument + differential test: generated trees printed in 24 styles and parsed by the real ANTLR parser, lexer-error audit of accepted strings, verbatim CLI output",
+        "Lean 4 round-trip theorems for text (five-pass unescape over the extracted escape table, block induction), strings (single pass, both quotes), integers, booleans, and the whole-tree round trip parseTemplate(printPat st p) = p proved through the model of the three-mode lexer and the parser (recursion over the tree, fuel eliminated) + differential test: generated trees printed in 24 styles and parsed by the real ANTLR parser, lexer-error audit of accepted strings, verbatim CLI output",
         "Proved in Lean over the escape table re-extracted from parser.py each run: unescape(escText s) = s for every "
         "text not ending in a backslash (and a witness that the condition is needed), unescape_string(escStr q s) = s "
         "for every string and both quotes, int literals up to the conversion limit, both boolean spellings, any print "
@@ -123,7 +123,16 @@ CLAIMED = {
         "raw text without % and TAB/LF/CR that does not end in a backslash is lexed as one TEXT token and parses back to "
         "itself (parse_print_text), and %T(<literal>) with any string not ending in a backslash and either quote mark "
         "parses to a tag with exactly that string as argument (parse_print_string_arg: the closing quote is the first "
-        "unprotected one), %T(<digits of n>) to the integer n (parse_print_nat_arg). The round trip for arbitrary TREES is checked by correspondence (not a theorem): 30 000 "
+        "unprotected one), %T(<digits of n>) to the integer n (parse_print_nat_arg). The round trip for arbitrary TREES is a theorem "
+        "too: parse_print_tokens (the parser reads back the printer's token sequence of every tree: nesting, categories, "
+        "positional and named arguments, the flag shorthand; mutual recursion over elements and patterns, the parser's "
+        "own fuel shown sufficient) and lex_print / parse_print (the lexer, freed of its fuel by lexStep_shrinks and "
+        "lexLoop_enough, cuts the printed text of every printable tree into exactly those tokens: one lemma per token "
+        "kind, then argument lists, tags, patterns), for every printing style (either quote mark, either spelling of the "
+        "booleans, shorthand or not, blank after commas or not). Printable = texts non-empty, free of %/TAB/LF/CR, not "
+        "ending in a backslash, no two adjacent; names are identifiers; strings do not end in a backslash; integers within "
+        "the digit limit; argument names used once. The theorem is about the model of the front end; that the model is "
+        "the real ANTLR front end is the correspondence: 30 000 "
         "generated trees per run are printed by the model's printer and by an independent Python printer, parsed by "
         "the real parser and by the model, and compared with the tree; accepted strings are re-lexed with a collecting "
         "listener (nothing dropped); CLI runs check that text+argument reach the generated name verbatim.",
@@ -132,13 +141,16 @@ CLAIMED = {
         "DESIGN.md §7 C10",
     ),
     "C11": (
-        "Lean 4 theorems on the visitor's pipe fold (= nested contexts, for every X and any number of tags) and rejection of non-tags after a pipe + differential test of pipe/nested spellings on the real parser and renderer",
+        "Lean 4 theorems on the visitor's pipe fold (= nested contexts, for every X and any number of tags) and rejection of non-tags after a pipe, and pipe_eq_nested_tree: on the template text, X|%A(..)|%B(..) and %B(..){%A(..){X}} parse to the same tree for every printable pattern X and every non-empty list of tags with arguments + differential test of pipe/nested spellings on the real parser and renderer",
         "Proved in Lean: the pipe fold of the visitor builds exactly the nested-context tree for every X and every "
         "number of piped tags; each piped tag's only context is everything before it; a pipe not followed by a tag "
         "makes the pattern unparsable at any level; and on the template TEXT, through the model of the whole front end "
         "(pipe_eq_nested_text): for every raw text x the grammar can carry, `x|%T()` and `%T(){x}` both parse to the one "
-        "tree whose tag has exactly x as context. For arbitrary X and argument lists, that the token stream of "
-        "`X|%A|%B` reaches the fold as (X, [A, B]) is tied by correspondence: 20 000 generated (X, 1-5 tags, arguments) pairs per run are printed in both "
+        "tree whose tag has exactly x as context. For arbitrary X and argument lists (C11Tree.lean): pipe_tokens (the parser "
+        "turns the tokens of X|A|B.. into nest X [A, B..]; parsePipes by induction over the tag list), lex_piped (the "
+        "lexer cuts the piped spelling into those tokens) and pipe_eq_nested_tree (both spellings, printed in any two "
+        "styles, parse to the same tree nest X tags), built on C10's tree round trip. The tie of the model front end to "
+        "the real one is by correspondence: 20 000 generated (X, 1-5 tags, arguments) pairs per run are printed in both "
         "spellings, at top level and inside a context, parsed by the real parser and by the model (equal trees), and "
         "rendered through the real compiler with the built-in text tags (equal names).",
         "Trusted: Lean kernel; ANTLR runtime/generated parser (modelled, tied by correspondence).",
